@@ -110,6 +110,11 @@ impl AsymmetricKey for LegacyDaedalus {
         if data.len() != XPRV_SIZE {
             return Err(SecretKeyError::SizeInvalid);
         }
+        // the scalar (first 32 bytes, little endian) must be below 2^255: the curve arithmetic
+        // requires it and computes a wrong public key (and unverifiable signatures) otherwise
+        if data[31] & 0b1000_0000 != 0 {
+            return Err(SecretKeyError::StructureInvalid);
+        }
         let mut buf = [0; XPRV_SIZE];
         buf[0..XPRV_SIZE].clone_from_slice(data);
         Ok(LegacyPriv(buf))
